@@ -327,7 +327,10 @@ class MinGenSet():
         # len(numbers) + 1 elements always suffice without partition constraints (differences of the sorted
         # numbers and the total); every part of a partition constraint can force one more cut point.
         extra_cuts = sum(len(c) - 1 for c in (self.partition_constraints or []))
-        for k in range(self.lowerbound, max(self.lowerbound+1, len(self.initial_numbers) + 2 + extra_cuts)):
+        # a generating set has at least one element: a lower bound below 1 (a truthful but useless bound) must not
+        # make the search start with the empty model k = 0, which the solver does not classify as infeasible
+        first_k = max(1, self.lowerbound)
+        for k in range(first_k, max(first_k+1, len(self.initial_numbers) + 2 + extra_cuts)):
             self._create_solver(k=k)
             self.solver.optimize()
 
